@@ -8,7 +8,7 @@
 (* The concretisation used by the harness makes byte-level prefix/suffix   *)
 (* relations coincide with the token-level ones (DESIGN 3.1).               *)
 (***************************************************************************)
-EXTENDS Naturals, Sequences, FiniteSets
+EXTENDS Naturals, Sequences, FiniteSets, TLC
 
 SEP == "SEP"
 NL  == "NL"
@@ -54,8 +54,10 @@ JoinWith(ss, sep) ==
 RECURSIVE Concat(_)
 Concat(ss) == IF ss = <<>> THEN <<>> ELSE ss[1] \o Concat(Tail(ss))
 
+\* the word tokens "w1" .. "w999" (everything else is structure or a literal)
+WordSet == {"w" \o ToString(k) : k \in 1..999}
 \* The words (content tokens) of a token sequence.
-IsWord(t) == t \notin ({SEP, NL, SP, "PCT", "QT"} \cup HostileToks)
+IsWord(t) == t \in WordSet
 WordsOf(s) == {s[i] : i \in {j \in 1..Len(s) : IsWord(s[j])}}
 
 \* First line of a text.
